@@ -130,6 +130,9 @@ func c15SetFloat64(c *hx.Ctx, r *hx.RNG) {
 	case 2:
 		p = int64(r.Range(700, 800)) // holds any float64 expansion exactly (at most 767 digits)
 	}
+	if math.Abs(f) >= 1<<54 && !math.IsInf(f, 0) && r.Chance(25) {
+		p = maxPrec // an integer scaled by a positive power of two: only multiplications, nothing is allocated by the precision
+	}
 	what := fmt.Sprintf("SetFloat64(%v = %#x) prec=%d mode=%s", f, math.Float64bits(f), p, oracle.ModeNames[mode])
 	c.Note(what)
 	if c.Verbose {
@@ -158,6 +161,9 @@ func c15SetFloat64(c *hx.Ctx, r *hx.RNG) {
 		if got.Prec != 17 {
 			c.Violate("wrong-precision", fmt.Sprintf("%s: precision 0 became %d, documented 17", what, got.Prec), "")
 		}
+	} else if int64(got.Prec) != p {
+		c.Violate("precision-changed", fmt.Sprintf("%s: receiver precision became %d", what, got.Prec), "")
+		return
 	}
 	neg := math.Signbit(f)
 	switch {
@@ -269,6 +275,9 @@ func c15SetFloat(c *hx.Ctx, r *hx.RNG) {
 			p = full + int64(r.Range(0, 5)) // holds the full expansion
 		}
 	}
+	if cls == "finite" && ex.Exp == 0 && r.Chance(20) {
+		p = maxPrec // an integer: the mantissa is scaled by a non-negative power of two, nothing is allocated by the precision
+	}
 	what := fmt.Sprintf("SetFloat(%s, binary prec %d) prec=%d mode=%s", x.Text('p', 0), x.Prec(), p, oracle.ModeNames[mode])
 	c.Note(what)
 	if c.Verbose {
@@ -299,6 +308,9 @@ func c15SetFloat(c *hx.Ctx, r *hx.RNG) {
 		if pe < 1 {
 			pe = 1
 		}
+	} else if int64(got.Prec) != p {
+		c.Violate("precision-changed", fmt.Sprintf("%s: receiver precision became %d", what, got.Prec), "")
+		return
 	}
 	switch cls {
 	case "zero":
